@@ -437,6 +437,351 @@ def explain_cond(ctx, V, c, p, m, bind, outs):
 
 
 # ----------------------------------------------------------------------------------------------------------------
+# stream 2: generated nestings, compared structurally with the model
+def s_qubits(o):
+    if o['t'] == 'leaf':
+        return list(o['qs'])
+    body = sorted({q for m in o['c'] for x in m for q in s_qubits(x)})
+    qm = dict(o['qm'])
+    return [qm.get(q, q) for q in body]
+
+
+def s_names(o):
+    if o['t'] == 'leaf':
+        return [k[1] for k in o['mk']] + [k[1] for c in o['cs'] for k in spec_keys_of(c)]
+    km = dict(o['km'])
+    return [km.get(n, n) for m in o['c'] for x in m for n in s_names(x)]
+
+
+def s_mnames(o):
+    if o['t'] == 'leaf':
+        return [k[1] for k in o['mk']]
+    km = dict(o['km'])
+    return [km.get(n, n) for m in o['c'] for x in m for n in s_mnames(x)]
+
+
+def s_pnames(o):
+    if o['t'] == 'leaf':
+        return [p[1] for p in o['ps'] if p[0] == 'sym']
+    pm = dict(o['pm'])
+    out = [o['reps'][2]] if isinstance(o['reps'], tuple) else []
+    for m in o['c']:
+        for x in m:
+            for n in s_pnames(x):
+                v = pm.get(n, ('sym', n))
+                if v[0] == 'sym':
+                    out.append(v[1])
+    return out
+
+
+def s_depth(o):
+    return 0 if o['t'] == 'leaf' else 1 + max([s_depth(x) for m in o['c'] for x in m], default=0)
+
+
+class Gen:
+    """Structured generator of nested CircuitOperation records (all keys written at user level: empty paths)."""
+
+    def __init__(self, rng, sim=False):
+        self.rng = rng
+        self.sim = sim          # simulation-friendly: every control key bound, no parameters left, no symbolic reps
+
+    def leaf(self, free_q, measured, pure, outer_names):
+        rng = self.rng
+        r = rng.random()
+        if pure or r < 0.45:
+            kind = 'p' if (rng.random() < 0.25 and not self.sim) else 'u'
+        elif r < 0.72:
+            kind = 'm'
+        else:
+            kind = 'c'
+        two = len(free_q) >= 2 and rng.random() < 0.3 and kind != 'm'
+        if kind == 'm':
+            qs = rng.sample(free_q, rng.choice([1, 1, 2]) if len(free_q) >= 2 else 1)
+            name = rng.choice(NAMES)
+            return dict(t='leaf', uid=Vocab.MEAS, sgn=False, qs=qs, mk=[((), name)], cs=[], ps=[])
+        qs = rng.sample(free_q, 2 if two else 1)
+        if kind == 'p':
+            uid = 21 if two else 20
+            ps = [('sym', rng.choice(['t', 's', 'u']))]
+        else:
+            uid = rng.choice([3, 4]) if two else rng.choice([0, 1])
+            ps = []
+        cs = []
+        if kind == 'c':
+            pool = list(measured) if (measured and (self.sim or rng.random() < 0.75)) else (list(outer_names) or NAMES)
+            if self.sim and not measured:
+                pool = list(outer_names)
+            if pool:
+                for _ in range(rng.choice([1, 1, 2])):
+                    c = rcond(rng, lambda: ((), rng.choice(pool)))
+                    if c[0] == 'sym' and len(set(pool)) < len(c[2]):
+                        c = ('key', ((), rng.choice(pool)), -1)
+                    cs.append(c)
+        return dict(t='leaf', uid=uid, sgn=rng.random() < 0.3, qs=qs, mk=[], cs=cs, ps=ps)
+
+    def circuit(self, depth, nq, pure, outer_names, exact_depth=False):
+        """moments over qubits 0..nq-1; returns (moments, names measured at the end)."""
+        rng = self.rng
+        moments, measured = [], []
+        want_sub = depth > 0
+        for mi in range(rng.randint(1, 4)):
+            free = list(range(nq))
+            rng.shuffle(free)
+            m, touched = [], set()
+            for _ in range(rng.choice([1, 1, 2])):
+                if not free:
+                    break
+                if depth > 0 and (rng.random() < 0.45 or (want_sub and mi >= 1)):
+                    d2 = depth - 1 if (exact_depth and want_sub) else rng.randint(0, depth - 1)
+                    o = self.sub(d2, len(free), pure, list(measured) + list(outer_names), free, exact_depth)
+                else:
+                    o = self.leaf(free, measured, pure, outer_names)
+                if o is None:
+                    continue
+                names, qs = set(s_names(o)), s_qubits(o)
+                if names & touched or not set(qs) <= set(free):
+                    continue
+                if o['t'] == 'sub':
+                    want_sub = False
+                touched |= names
+                free = [q for q in free if q not in qs]
+                m.append(o)
+            if m:
+                moments.append(m)
+                for o in m:
+                    measured += s_mnames(o)
+        return moments, measured
+
+    def sub(self, depth, nq, pure, outer_names, targets=None, exact_depth=False):
+        """A CircuitOperation record whose mapped qubits lie in `targets` (default 0..nq-1)."""
+        rng = self.rng
+        targets = list(targets) if targets is not None else list(range(nq))
+        nb = min(len(targets), rng.choice([1, 2, 2, 3]))
+        r = rng.random()
+        reps = rng.choice([1, 1, 2, 2, 3, 0]) if r < 0.8 else rng.choice([-1, -2])
+        if reps < 0:
+            pure = True
+        body, measured = self.circuit(depth, nb, pure, outer_names, exact_depth)
+        if not body:
+            return None
+        o = dict(t='sub', c=body, reps=reps, ids=None, use=False, qm=[], km=[], pm=[], pp=[], ext=[], until=None)
+        bq = s_qubits(o)
+        if not self.sim and reps > 0 and rng.random() < 0.06:
+            o['reps'] = ('rsym', False, 'n')
+        elif reps != 0:
+            r = rng.random()
+            if r < 0.25:
+                o['use'] = True
+            elif r < 0.45:
+                o['ids'] = rng.sample(['x', 'y', 'w', 'v'], abs(reps))
+                o['use'] = True
+        # qubit map: injective from the body qubits into the targets
+        img = rng.sample(targets, len(bq))
+        if rng.random() < 0.35 and set(bq) <= set(targets):
+            img = bq
+        o['qm'] = sorted((a, b) for a, b in zip(bq, img) if a != b)
+        names = sorted(set(s_names(o)))
+        if names and rng.random() < 0.5:
+            pool = NAMES + ['y', 'z']
+            im = rng.sample(pool, len(names))
+            keep = [rng.random() < 0.7 for _ in names]
+            cand = {a: (b if k else a) for a, b, k in zip(names, im, keep)}
+            if len(set(cand.values())) == len(names):
+                o['km'] = sorted((a, b) for a, b in cand.items() if a != b)
+        pn = sorted(set(s_pnames(o)) - ({o['reps'][2]} if isinstance(o['reps'], tuple) else set()))
+        if pn and (self.sim or rng.random() < 0.5):
+            for n in pn:
+                if self.sim or rng.random() < 0.7:
+                    o['pm'].append((n, ('val', rng.choice([1, 2, 3, 4, 6, -2])) if (self.sim or rng.random() < 0.6)
+                                    else ('sym', rng.choice(['t', 's', 'u', 'w']))))
+        if rng.random() < 0.4:
+            o['pp'] = rng.choice([['p'], ['p'], ['r'], ['p', 'r']])
+        return o
+
+
+def mkeyset(keys):
+    return sorted({(tuple(k.path), k.name) for k in keys})
+
+
+def observe(cirq, V, op):
+    """Everything the implementation reports about one CircuitOperation."""
+    d = {}
+    d['shallow'] = attempt(lambda: V.dcirc(op.mapped_circuit(deep=False)))
+    d['deep'] = attempt(lambda: V.dcirc(op.mapped_circuit(deep=True)))
+    d['mkeys'] = attempt(lambda: mkeyset(cirq.measurement_key_objs(op)))
+    d['ckeys'] = attempt(lambda: mkeyset(cirq.control_keys(op)))
+    d['pnames'] = attempt(lambda: sorted(cirq.parameter_names(op)))
+    d['qubits'] = [int(q.x) for q in op.qubits]
+    d['is_meas'] = bool(cirq.is_measurement(op))
+    d['names'] = attempt(lambda: sorted({k.name for k in cirq.measurement_keys_touched(op)}))
+    return d
+
+
+def struct_stream(ctx, cirq, V, n):
+    rng = ctx.rng
+    gen = Gen(rng)
+    rows = []
+    tries = 0
+    while len(rows) < n and tries < 20 * n:
+        tries += 1
+        depth = rng.choice([0, 1, 1, 2, 2, 3])
+        rec = gen.sub(depth, 4, rng.random() < 0.2, NAMES, exact_depth=True)
+        if rec is None:
+            continue
+        built = attempt(lambda: V.sub(rec))
+        if built[0] != 'ok':
+            ctx.count('struct:rejected', ('rej', len(rows), tries), False)
+            continue
+        op = built[1]
+        D = V.dsub(op)
+        obs = observe(cirq, V, op)
+        # one further remapping of each kind (constructor compositions)
+        bq = sorted(set(obs['qubits']))
+        img = rng.sample(range(-1, 7), len(bq))
+        g = dict(zip(bq, img))
+        names = obs['names'][1] if obs['names'][0] == 'ok' else []
+        pool = NAMES + ['y', 'z', 'k']
+        m2 = dict(zip(names, rng.sample(pool, len(names)))) if names else {}
+        m2 = {a: b for a, b in m2.items() if rng.random() < 0.7}
+        if len({m2.get(x, x) for x in names}) != len(names):
+            m2 = {}
+        pn = obs['pnames'][1] if obs['pnames'][0] == 'ok' else []
+        pm2 = {x: (('val', rng.choice([1, 2, 3, 5])) if rng.random() < 0.6 else ('sym', rng.choice(['t', 'w', 'v'])))
+               for x in pn if rng.random() < 0.7}
+        path = list(rpath(rng, 2))
+        bind = [rkey(rng, 2) for _ in range(rng.randint(0, 3))]
+        for x in names[:2]:
+            if rng.random() < 0.6:
+                j = rng.randint(0, len(path))
+                bind.append((tuple(path[:j]), x))
+        tr = {}
+        tr['qmap'] = attempt(lambda: V.dop(op.transform_qubits(lambda q: V.q(g.get(q.x, q.x)))))
+        tr['kmap'] = attempt(lambda: V.dop(cirq.with_measurement_key_mapping(op, m2)))
+        tr['resolve'] = attempt(lambda: V.dop(cirq.resolve_parameters(
+            op, {V.sympy.Symbol(k): V.pval(v) for k, v in pm2.items()}, recursive=False)))
+        tr['rescope'] = attempt(lambda: V.dop(cirq.with_rescoped_keys(op, tuple(path), frozenset(V.key(b) for b in bind))))
+        tr['inv'] = attempt(lambda: V.dop(op ** -1))
+        rows.append(dict(rec=D, obs=obs, g=sorted(g.items()), m2=sorted(m2.items()), pm2=sorted(pm2.items()), path=path,
+                         bind=bind, tr=tr))
+        dd = s_depth(D)
+        nontriv = dd >= 2 or bool(D['qm'] or D['km'] or D['pp'] or D['ids']) or D['reps'] not in (1,)
+        ctx.count(f'struct:depth{dd - 1}', D, nontriv,
+                  sample=dict(op=repr(op)[:600], measurement_keys=obs['mkeys'], control_keys=obs['ckeys'],
+                              deep_moments=(len(obs['deep'][1]) if obs['deep'][0] == 'ok' else obs['deep'][1])))
+        for feat in struct_features(D):
+            ctx.streams['feature:' + feat] += 1
+        spec_struct(ctx, cirq, V, op, D, obs)
+    # ---- the model, evaluated on the same records
+    pairs = lambda l, fa, fb: gL(l, lambda p: f'({fa(p[0])}, {fb(p[1])})')
+    lines = []
+    for r in rows:
+        o, t = r['obs'], r['tr']
+        lines.append('(' + ', '.join([
+            gOp(r['rec']),
+            '(' + ', '.join([gRes(o['shallow'], gCirc), gRes(o['deep'], gCirc), gRes(o['mkeys'], lambda l: gL(l, gK)),
+                             gRes(o['ckeys'], lambda l: gL(l, gK)), gRes(o['pnames'], lambda l: gL(l, gS)),
+                             gL(o['qubits'], Z), gB(o['is_meas']), gRes(o['names'], lambda l: gL(l, gS))]) + ')',
+            '(' + ', '.join([pairs(r['g'], Z, Z), pairs(r['m2'], gS, gS), pairs(r['pm2'], gS, gP), gL(r['path'], gS),
+                             gL(r['bind'], gK)]) + ')',
+            '(' + ', '.join([gRes(t['qmap'], gOp), gRes(t['kmap'], gOp), gRes(t['resolve'], gOp), gRes(t['rescope'], gOp),
+                             gRes(t['inv'], gOp)]) + ')']) + ')')
+    CH = 60
+    bad_all = {}
+    for ci in range(0, len(lines), CH):
+        defs = STRUCT_DEFS + 'Definition rows_0 : list row_t := [\n' + ';\n'.join(lines[ci:ci + CH]) + '].\n'
+        for j in range(1, len(STRUCT_PREDS)):
+            defs += f'Definition rows_{j} := rows_0.\n'
+        evals = [(name, None, pred) for name, pred in STRUCT_PREDS]
+        bad = run_coq(ctx, f'struct{ci // CH}', defs, evals)
+        for name, idxs in bad.items():
+            bad_all.setdefault(name, []).extend(ci + i for i in idxs)
+    for name, idxs in bad_all.items():
+        for idx in idxs:
+            r = rows[idx]
+            got = r['obs'].get(name, r['tr'].get(name))
+            ctx.mark_broken(f'correspondence:struct:{name}', f'case {idx}: {r["rec"]} -> implementation {got}')
+            ctx.violation(f'correspondence:struct:{name}',
+                          f'model and implementation disagree on `{name}` of {V.sub(r["rec"])!r}'[:1500] + f' implementation: {got}'[:600],
+                          dict(kind='struct', rec=r['rec'], which=name, g=r['g'], m2=r['m2'], pm2=r['pm2'], path=r['path'],
+                               bind=r['bind']), found_input=False)
+    return rows
+
+
+STRUCT_DEFS = """
+Definition mc (deep : bool) (o : op) : res circ :=
+  match o with OSub c f => mapped_circuit kK kM 8 deep c f | OLeaf _ => ErrValue end.
+Definition strset_eqb (a b : list string) : bool := set_eqb String.eqb a b.
+Definition zfun (g : list (Z * Z)) (q : Z) : Z := zlookup g q.
+Definition obs_t := (res circ * res circ * res (list mkey) * res (list mkey) * res (list string) * list Z * bool * res (list string))%type.
+Definition par_t := (list (Z * Z) * kmap * pmap * list string * list mkey)%type.
+Definition tr_t := (res op * res op * res op * res op * res op)%type.
+Definition row_t := (op * obs_t * par_t * tr_t)%type.
+Definition o_sh (r : row_t) := match r with (_, (a, _, _, _, _, _, _, _), _, _) => a end.
+Definition o_dp (r : row_t) := match r with (_, (_, a, _, _, _, _, _, _), _, _) => a end.
+Definition o_mk (r : row_t) := match r with (_, (_, _, a, _, _, _, _, _), _, _) => a end.
+Definition o_ck (r : row_t) := match r with (_, (_, _, _, a, _, _, _, _), _, _) => a end.
+Definition o_pn (r : row_t) := match r with (_, (_, _, _, _, a, _, _, _), _, _) => a end.
+Definition o_qs (r : row_t) := match r with (_, (_, _, _, _, _, a, _, _), _, _) => a end.
+Definition o_im (r : row_t) := match r with (_, (_, _, _, _, _, _, a, _), _, _) => a end.
+Definition o_nm (r : row_t) := match r with (_, (_, _, _, _, _, _, _, a), _, _) => a end.
+Definition r_op (r : row_t) := match r with (o, _, _, _) => o end.
+Definition p_g (r : row_t) := match r with (_, _, (a, _, _, _, _), _) => a end.
+Definition p_m (r : row_t) := match r with (_, _, (_, a, _, _, _), _) => a end.
+Definition p_p (r : row_t) := match r with (_, _, (_, _, a, _, _), _) => a end.
+Definition p_path (r : row_t) := match r with (_, _, (_, _, _, a, _), _) => a end.
+Definition p_b (r : row_t) := match r with (_, _, (_, _, _, _, a), _) => a end.
+Definition t_q (r : row_t) := match r with (_, _, _, (a, _, _, _, _)) => a end.
+Definition t_k (r : row_t) := match r with (_, _, _, (_, a, _, _, _)) => a end.
+Definition t_r (r : row_t) := match r with (_, _, _, (_, _, a, _, _)) => a end.
+Definition t_s (r : row_t) := match r with (_, _, _, (_, _, _, a, _)) => a end.
+Definition t_i (r : row_t) := match r with (_, _, _, (_, _, _, _, a)) => a end.
+Definition kmap_top (m : kmap) (o : op) : op := if isnil (op_names o) then o else t_kmap kK kM m o.
+"""
+
+STRUCT_PREDS = [
+    ('shallow', 'fun r : row_t => res_eqb circ_eqb (mc false (r_op r)) (o_sh r)'),
+    ('deep', 'fun r : row_t => res_eqb circ_eqb (mc true (r_op r)) (o_dp r)'),
+    ('mkeys', 'fun r : row_t => res_eqb keyset_eqb (Ok (op_mkeys (r_op r))) (o_mk r)'),
+    ('ckeys', 'fun r : row_t => res_eqb keyset_eqb (op_ckeys kK kM 8 (r_op r)) (o_ck r)'),
+    ('pnames', 'fun r : row_t => res_eqb strset_eqb (Ok (op_pnames (r_op r))) (o_pn r)'),
+    ('qubits', 'fun r : row_t => list_eqb Z.eqb (op_qubits (r_op r)) (o_qs r)'),
+    ('is_meas', 'fun r : row_t => Bool.eqb (op_is_meas (r_op r)) (o_im r)'),
+    ('names', 'fun r : row_t => res_eqb strset_eqb (Ok (op_names (r_op r))) (o_nm r)'),
+    ('qmap', 'fun r : row_t => res_eqb op_eqb (Ok (t_qmap (zfun (p_g r)) (r_op r))) (t_q r)'),
+    ('kmap', 'fun r : row_t => res_eqb op_eqb (Ok (kmap_top (p_m r) (r_op r))) (t_k r)'),
+    ('resolve', 'fun r : row_t => res_eqb op_eqb (Ok (t_resolve (p_p r) (r_op r))) (t_r r)'),
+    ('rescope', 'fun r : row_t => res_eqb op_eqb (Ok (t_rescope kK kM (p_path r) (p_b r) (r_op r))) (t_s r)'),
+    ('inv', 'fun r : row_t => res_eqb op_eqb (t_inv (r_op r)) (t_i r)'),
+]
+
+
+def struct_features(D):
+    f = set()
+
+    def walk(o):
+        if o['t'] == 'leaf':
+            for c in o['cs']:
+                f.add('cond:' + c[0])
+            return
+        r = o['reps']
+        f.add('reps:' + ('sym' if isinstance(r, tuple) else 'neg' if r < 0 else str(r) if r < 2 else 'n'))
+        if o['ids'] is not None:
+            f.add('ids')
+        for k in ('qm', 'km', 'pm', 'pp'):
+            if o[k]:
+                f.add(k)
+        for m in o['c']:
+            for x in m:
+                walk(x)
+    walk(D)
+    return f
+
+
+def spec_struct(ctx, cirq, V, op, D, obs):
+    pass
+
+
+# ----------------------------------------------------------------------------------------------------------------
 def run(ctx):
     cirq = env.import_cirq()
     V = Vocab(cirq)
@@ -451,6 +796,7 @@ def run(ctx):
     ctx.set_obligations(coq.compile_props('C12'))
     quick = ctx.tier == 'quick'
     key_stream(ctx, cirq, V, 300 if quick else 3000)
+    struct_stream(ctx, cirq, V, 240 if quick else 2400)
 
 
 def replay(ctx, data):
